@@ -81,6 +81,7 @@ def applyCfg (s : St) : List String → Option St
   | ["r", d] => do some { s with params := { s.params with r := ← parseDec d } }
   | ["fee", d] => do some { s with params := { s.params with feeDefault := ← parseDec d } }
   | ["feetoken", sym, d] => do some { s with params := { s.params with feeTokens := s.params.feeTokens.set sym (← parseDec d) } }
+  | ["nofeetoken", sym] => some { s with params := { s.params with feeTokens := s.params.feeTokens.erase sym } }
   | ["distribute", b] => do some { s with params := { s.params with rewardsDistribute := ← parseBool b } }
   | ["lock", n] => do some { s with params := { s.params with rewardsLockPeriod := ← parseNat n } }
   | "rewardperiod" :: a :: b :: alloc :: m :: d :: dm :: rest => do
